@@ -82,10 +82,61 @@ def _unique_idxs_semantic(f):
     return True
 
 
+def _unique_fill_semantic(f):
+    """abstract run of setuniqueparams: True / a message / None (outside the interpreter's vocabulary)"""
+    from ..domains.kinds import AObj, KindInterp
+    from ..domains.dictsem import Unsupported, Raised, _Return, Tok, ADict
+    me, pm = f.params()[:2]
+    va = f.vararg()
+    if va is None:
+        return None
+    new = [Tok("N0", is_tensor=True), Tok("N1", is_tensor=True), Tok("N2", is_tensor=True)]
+    got = {}
+    obj = AObj("module", ("EditableModule",))
+    obj.methods["setparams"] = lambda *a: got.setdefault("args", list(a)) and 0
+    env = {me: obj, pm: "m", va: tuple(new),
+           "%s._number_of_params" % me: ADict({"m": 5}, "n"), "%s._unique_params_maps" % me: ADict({"m": [[0, 2], [1, 4], [3]]}, "maps"),
+           "%s._unique_params_idxs" % me: ADict({"m": [0, 1, 3]}, "idxs")}
+    it = KindInterp(env)
+    try:
+        try:
+            it.run(f.node.body)
+        except _Return:
+            pass
+    except (Unsupported, TypeError, AttributeError, KeyError, IndexError, ValueError):
+        return None
+    except Raised as e:
+        return "raises %s" % e
+    a = got.get("args")
+    if a is None:
+        return "setparams is never called"
+    want = ["m", new[0], new[1], new[0], new[2], new[1]]
+    if len(a) != len(want) or a[0] != "m" or not all(x is y for x, y in zip(a[1:], want[1:])):
+        return "unique tensors (N0, N1, N2) with the alias map [[0, 2], [1, 4], [3]] reach setparams as %r instead of (N0, N1, N0, N2, N1)" % (a[1:],)
+    return True
+
+
 def unique_fill(model: Model, M: RuleResult):
     """EditableModule.setuniqueparams puts each unique tensor under EVERY name that aliases it (loop over the whole map entry) and
     hands the complete list to setparams; setparams installs every entry (no value is skipped)."""
     f = model.func(EM, "EditableModule.setuniqueparams")
+    sem = _unique_fill_semantic(f)
+    if sem is True:
+        M.ok(f.fq, "abstract run: unique tensors (N0, N1, N2) with the alias map [[0, 2], [1, 4], [3]] are handed to setparams as (N0, N1, N0, N2, N1): every aliasing "
+             "name of a unique parameter receives the new tensor")
+        M.ok(f.fq, "the complete list is handed to setparams")
+    elif isinstance(sem, str):
+        M.bad(f, f.node, "setuniqueparams must write the new tensor under every index of its alias map and hand the complete list to setparams: an alias left out keeps "
+              "the old tensor, so part of the operator is evaluated on the old parameters [%s]" % sem)
+    if sem is not None:
+        g = model.func(EM, "EditableModule.setparams")
+        skips = [n for n in own_nodes(g.node) if isinstance(n, ast.Continue)] + \
+                [n for l in own_nodes(g.node) if isinstance(l, ast.For) for n in l.body if isinstance(n, ast.If)]
+        if not skips:
+            M.ok(g.fq, "setparams installs every (name, value) pair unconditionally")
+        else:
+            M.bad(g, skips[0], "setparams must install every (name, value) pair: a conditional skip leaves the old tensor in place without any error")
+        return
     stores = [s for s in own_nodes(f.node) if isinstance(s, ast.Assign) and isinstance(s.targets[0], ast.Subscript)]
     ok = False
     why = "no indexed store found"
